@@ -73,6 +73,12 @@ Theorem C07_hom_invariant : forall c l,
   hom_rate_model (map (scale_triple c) l) = hom_rate_model l.
 Proof. exact hom_rate_scale_invariant. Qed.
 
+(* two sources scaled independently (source 1 by c1, source 2 by c2) *)
+Theorem C07_hom_two_source_invariant : forall c1 c2 l n1 n2,
+  c1 <> 0 -> c2 <> 0 -> sum_list (map cnorm2 n1) <> 0 -> sum_list (map cnorm2 n2) <> 0 ->
+  hom2_rate_model (map (scale_term2 c1 c2) l) (map (cscale c1) n1) (map (cscale c2) n2) = hom2_rate_model l n1 n2.
+Proof. exact hom2_rate_scale_invariant. Qed.
+
 (* the generated normalisation equals the hand-pinned reference form (Spec/Normalization.v): constants 2pi, c, eps0 in the
    UCUM base, the 2/pi poling coefficient, and the structure Wp^2 (deff L)^2 ws wi/(ns ni)^2 P / sigma; unconditional *)
 Theorem C07_norm_matches_spec : forall ws wi s,
@@ -170,6 +176,7 @@ Print Assumptions C07_efficiencies_invariant.
 Print Assumptions C07_normalized_invariant.
 Print Assumptions C07_schmidt_invariant.
 Print Assumptions C07_hom_invariant.
+Print Assumptions C07_hom_two_source_invariant.
 Print Assumptions C07_norm_matches_spec.
 Print Assumptions C07_frequency_conversion_spec.
 Print Assumptions C07_envelope_center.
